@@ -50,9 +50,23 @@ def _connect_one(ctx: Ctx, c: Collector) -> None:
     for nm in ("time_shifted", "weak", "initial_data"):
         if nm not in ps:
             raise AnalysisError(f"{CONNECT_ONE}: parameter {nm} not found")
-    DA = ("phi", ("not", dest_attr_p), src_attr, dest_attr_p)
-    das = [DA, dest_attr_p]
     mm_s, mm_d = ("attr", src, "model_mock"), ("attr", dest, "model_mock")
+    # the (defaulted) destination attribute is whatever is tested against the destination's inputs
+    DA = None
+    for e in s.events:
+        for cm in T.find((e.term,) + tuple(g[1] for g in e.guards), lambda x: x[0] == "cmp" and x[1] in ("in", "notin") and x[3] == ("attr", mm_d, "input_attrs")):
+            DA = cm[2]
+            break
+        if DA is not None:
+            break
+    if DA is None:
+        c.bad("reject", CONNECT_ONE, "destination attribute is an input", "the destination attribute is never tested against the destination model's input attributes", fi.loc)
+        return
+    leaves_da = {x for x in T.subterms(DA) if x[0] == "var"}
+    if not leaves_da <= {dest_attr_p, src_attr} or dest_attr_p not in leaves_da:
+        c.bad("reject", CONNECT_ONE, "destination attribute is an input", f"the attribute tested against the destination's inputs is {T.show(DA)[:80]}, not dest_attr (defaulting to src_attr)", fi.loc)
+        return
+    das = [DA, dest_attr_p]
     SRC_OK = ("cmp", "in", src_attr, ("attr", mm_s, "output_attrs"))
     DST_OK = ("cmp", "in", DA, ("attr", mm_d, "input_attrs"))
     MEAS = ("cmp", "in", DA, ("attr", mm_d, "measurement_inputs"))
@@ -67,18 +81,23 @@ def _connect_one(ctx: Ctx, c: Collector) -> None:
 
     raises = [e for e in s.of_kind("raise")]
     effects: List[Tuple[str, Event]] = []
+    idem: Dict[int, Tuple[Term, ...]] = {}
     for e in s.events:
         if e.kind == "store":
-            tb = _effect_table(e.term[1])
+            full = unalias(e.term[1], s, fi)
+            tb = _effect_table(full)
             if tb:
                 effects.append((tb, e))
+                # `if k not in d: d[k] = v` is setdefault: the test is not a condition of the entry
+                if e.term[1][0] == "idx":
+                    idem[e.idx] = tuple(g for g in e.guards if T.guard_term(g) == ("cmp", "notin", e.term[1][2], e.term[1][1]))
         elif e.kind == "call" and e.term[1][0] == "attr" and e.term[1][2] in ("append", "add", "add_edge", "update"):
-            tb = _effect_table(e.term[1][1])
+            tb = _effect_table(unalias(e.term[1][1], s, fi))
             if tb:
                 effects.append((tb, e))
         elif e.kind == "call" and e.term[1][0] == "attr" and e.term[1][2] == "setdefault" and len(e.term[2]) == 2:
             # a setdefault whose result is not used further is an effect of its own
-            tb = _effect_table(e.term[1][1])
+            tb = _effect_table(unalias(e.term[1][1], s, fi))
             used = any(T.contains(x.term, e.term) and x.idx != e.idx for x in s.events)
             if tb and not used:
                 effects.append((tb, e))
@@ -89,7 +108,7 @@ def _connect_one(ctx: Ctx, c: Collector) -> None:
         ok_exc = r.term[0] == "call" and r.term[1] == T.glob(SCENERR)
         c.check(ok_exc, "exc", CONNECT_ONE, "rejection is a ScenarioError", f"raises {T.show(r.term)[:60]}", ctx.loc(fi, r))
 
-    items = [(f"raise{r.idx}", r.guards) for r in raises] + [(f"eff:{tb}:{e.idx}", e.guards) for tb, e in effects]
+    items = [(f"raise{r.idx}", r.guards) for r in raises] + [(f"eff:{tb}:{e.idx}", tuple(g for g in e.guards if g not in idem.get(e.idx, ()))) for tb, e in effects]
     by_idx = {e.idx: (tb, e) for tb, e in effects}
 
     def truthy(t: Term) -> Optional[bool]:
@@ -190,7 +209,8 @@ def _connect_one(ctx: Ctx, c: Collector) -> None:
                 okv = e.term[1] == ("idx", ("attr", dest_sim, "input_delays"), src_sim) and T.contains(e.term[2], D)
                 c.check(okv, "delay", CONNECT_ONE, "input_delays[src_sim] of the destination", f"stores {T.show(e.term)[:140]}", ctx.loc(fi, e))
             if tb == "outputs" and e.kind == "store":
-                okv = T.contains(e.term[1], ("unop", "-", call(T.glob("int"), ts))) or T.contains(e.term[1], ("op", "-", T.const(0), call(T.glob("int"), ts)))
+                full = unalias(e.term[1], s, fi)
+                okv = T.contains(full, ("unop", "-", call(T.glob("int"), ts))) or T.contains(full, ("op", "-", T.const(0), call(T.glob("int"), ts)))
                 c.check(okv, "delay", CONNECT_ONE, "initial data is cached at time -time_shifted", f"initial data is cached under {T.show(e.term[1])[:120]}: it is not what a consumer shifted by time_shifted reads at its first steps", ctx.loc(fi, e))
 
 
